@@ -12,4 +12,7 @@ Interface of oracles/<ID>.py:
     def run(budget_s=20.0, seed=0) -> dict
         {"cases": <number of concrete cases executed>, "failures": [ {"what": short name, "input": json-able, "observed": ..., "expected": ...} ... at most 5 ]}
 The expected values come from the property STATEMENT (independent re-computation), never from the code under test.
-The toolkit modules are loaded from $VERIF_REPO through engine.pyvc.harness.toolkit(); sockets are stubbed (contracts.py.native)."""
+The toolkit modules are loaded from $VERIF_REPO through engine.pyvc.harness.toolkit(); sockets are stubbed (contracts.py.native).
+C halves / C properties: oracles/c_<ID>.py, same interface; they build one native harness (the real .c file #included, or the functions cut
+verbatim behind the prelude in shim/ - oracles/_c.py, oracles/_c_trx_if.py) with clang ASan+UBSan from the CURRENT $VERIF_REPO sources in a
+mkdtemp directory that is removed at the end of the run.  engine/cli.py merges both halves of a property (VERIF_PARTS=py|c selects one)."""
